@@ -1221,12 +1221,20 @@ impl<'a> FieldSerializer<'a> {
             .iter_parents_and_self(decl)
             .flat_map(|d| d.constraints())
             .collect::<Vec<_>>();
+        // Bit-fields narrower than an octet only make up whole octets together
+        // with their neighbours: carry their bits over to the next field.
+        let carry = std::cell::Cell::new(0usize);
+        let octets = |width: usize| -> usize {
+            let bits = carry.get() + width;
+            carry.set(bits % 8);
+            bits / 8
+        };
         let get_field_size_expr = |f: &ast::Field| -> String {
             let fid = f.id();
             let is_constrained =
                 fid.map(|fid| parent_constraints.iter().any(|c| c.id == fid)).unwrap_or(false);
             if is_constrained {
-                return format!("{}", self.schema.field_size(f.key).static_().unwrap() / 8);
+                return format!("{}", octets(self.schema.field_size(f.key).static_().unwrap()));
             }
 
             match &f.desc {
@@ -1242,7 +1250,7 @@ impl<'a> FieldSerializer<'a> {
                         // Actually, I'll just use a simpler approach for now.
                         format!("(({}_.has_value()) ? {} : 0)", f.id().unwrap(), width / 8)
                     } else {
-                        format!("{}", width / 8)
+                        format!("{}", octets(*width))
                     }
                 }
                 ast::FieldDesc::Typedef { id, type_id, .. } => {
@@ -1258,7 +1266,7 @@ impl<'a> FieldSerializer<'a> {
                             format!("(({0}_.has_value()) ? {0}_->GetSize() : 0)", id)
                         }
                     } else if width > 0 {
-                        format!("{}", width / 8)
+                        format!("{}", octets(width))
                     } else {
                         format!("{}_.GetSize()", id)
                     }
@@ -1287,7 +1295,7 @@ impl<'a> FieldSerializer<'a> {
                 ast::FieldDesc::Payload { .. } | ast::FieldDesc::Body => {
                     format!("{}.size()", deref(var, "payload_"))
                 }
-                _ => format!("{}", self.schema.field_size(f.key).static_().unwrap_or(0) / 8),
+                _ => format!("{}", octets(self.schema.field_size(f.key).static_().unwrap_or(0))),
             }
         };
 
